@@ -80,17 +80,18 @@ record by record the same documented value `interpRow ext fields` (records match
 struct / map with string keys / tuple in schema order, any field order, extra fields, absent nullable field vs explicit
 `None`, `Some`/newtype layers, integer widths …: `record_as_map`, `record_perm`, `extra_field_ignored`) — and both
 accepted by `to_marrow`: the returned arrays decode (`Spec.decodeAll`, the Arrow reading rules) to the same columns.
-Hypotheses: those of `C01.C01_build_decode`. -/
+Hypotheses: those of `C01.C01_build_decode` (`RawRows`: its two hypotheses on the records — raw call streams alternate;
+the sentinel bound when a record contains a raw stream). -/
 theorem C11_presentations (ext : Ext) (fields : List Field) (rows1 rows2 : List SVal) (arrs1 arrs2 : List Arr)
     (hschema : ∀ f ∈ fields, Lemmas.C03.SchemaOKF f)
     (hcov : fields.all Build.coveredF = true)
     (hsafe : ∀ root0, newRoot fields = .ok root0 → Safe root0)
-    (hraw1 : ∀ x ∈ rows1, noRaw x = true) (hraw2 : ∀ x ∈ rows2, noRaw x = true)
+    (hraw1 : RawRows fields rows1) (hraw2 : RawRows fields rows2)
     (hsame : rows1.map (interpRow ext fields) = rows2.map (interpRow ext fields))
     (h1 : toMarrow ext fields rows1 = .ok arrs1) (h2 : toMarrow ext fields rows2 = .ok arrs2) :
     arrs1.map decodeAll = arrs2.map decodeAll :=
-  DecodesTo_unique hsame (C01.C01_build_decode ext fields rows1 arrs1 hschema hcov hsafe hraw1 h1)
-    (C01.C01_build_decode ext fields rows2 arrs2 hschema hcov hsafe hraw2 h2)
+  DecodesTo_unique hsame (C01.C01_build_decode ext fields rows1 arrs1 hschema hcov hsafe hraw1.1 hraw1.2 h1)
+    (C01.C01_build_decode ext fields rows2 arrs2 hschema hcov hsafe hraw2.1 hraw2.2 h2)
 
 /-- the hypothesis of `C11_presentations` in index form: same number of records, record `i` means the same -/
 theorem same_rows_of_index (ext : Ext) (fields : List Field) (rows1 rows2 : List SVal) (hlen : rows1.length = rows2.length)
@@ -122,13 +123,13 @@ theorem C11_neighbours_undisturbed (ext : Ext) (fields : List Field) (rows1 rows
     (hschema : ∀ f ∈ fields, Lemmas.C03.SchemaOKF f)
     (hcov : fields.all Build.coveredF = true)
     (hsafe : ∀ root0, newRoot fields = .ok root0 → Safe root0)
-    (hraw1 : ∀ x ∈ rows1, noRaw x = true) (hraw2 : ∀ x ∈ rows2, noRaw x = true)
+    (hraw1 : RawRows fields rows1) (hraw2 : RawRows fields rows2)
     (h1 : toMarrow ext fields rows1 = .ok arrs1) (h2 : toMarrow ext fields rows2 = .ok arrs2)
     (i j : Nat) (hi : i < rows1.length) (hj : j < rows2.length)
     (hsame : interpRow ext fields rows1[i] = interpRow ext fields rows2[j]) :
     (arrs1.map decodeAll).map (·[i]?) = (arrs2.map decodeAll).map (·[j]?) := by
-  obtain ⟨_, cols1, a1, _, l1, r1⟩ := C01.C01_build_decode ext fields rows1 arrs1 hschema hcov hsafe hraw1 h1
-  obtain ⟨_, cols2, a2, _, l2, r2⟩ := C01.C01_build_decode ext fields rows2 arrs2 hschema hcov hsafe hraw2 h2
+  obtain ⟨_, cols1, a1, _, l1, r1⟩ := C01.C01_build_decode ext fields rows1 arrs1 hschema hcov hsafe hraw1.1 hraw1.2 h1
+  obtain ⟨_, cols2, a2, _, l2, r2⟩ := C01.C01_build_decode ext fields rows2 arrs2 hschema hcov hsafe hraw2.1 hraw2.2 h2
   rw [a1, a2, slot_of_cols _ i hi cols1 l1, slot_of_cols _ j hj cols2 l2]
   have e1 := r1 i hi
   rw [hsame, r2 j hj] at e1
@@ -144,11 +145,11 @@ theorem C11_undefined_refused (ext : Ext) (fields : List Field) (rows : List SVa
     (hschema : ∀ f ∈ fields, Lemmas.C03.SchemaOKF f)
     (hcov : fields.all Build.coveredF = true)
     (hsafe : ∀ root0, newRoot fields = .ok root0 → Safe root0)
-    (hraw : ∀ x ∈ rows, noRaw x = true)
+    (hraw : RawRows fields rows)
     (x : SVal) (hx : x ∈ rows) (e : Fail) (hbad : interpRow ext fields x = .error e) :
     ∀ arrs, toMarrow ext fields rows ≠ .ok arrs := by
   intro arrs h
-  obtain ⟨_, cols, _, _, _, hr⟩ := C01.C01_build_decode ext fields rows arrs hschema hcov hsafe hraw h
+  obtain ⟨_, cols, _, _, _, hr⟩ := C01.C01_build_decode ext fields rows arrs hschema hcov hsafe hraw.1 hraw.2 h
   obtain ⟨i, hi, rfl⟩ := List.getElem_of_mem hx
   rw [hr i hi] at hbad
   cases hbad
@@ -159,7 +160,7 @@ theorem C11_missing_or_duplicate_refused (ext : Ext) (fields : List Field) (rows
     (hschema : ∀ f ∈ fields, Lemmas.C03.SchemaOKF f)
     (hcov : fields.all Build.coveredF = true)
     (hsafe : ∀ root0, newRoot fields = .ok root0 → Safe root0)
-    (hraw : ∀ x ∈ rows, noRaw x = true)
+    (hraw : RawRows fields rows)
     (nm : String) (fs : SFields) (hx : SVal.record nm fs ∈ rows) (f : Field) (hf : f ∈ fields)
     (hbad : (f.nullable = false ∧ SFields.count f.name fs = 0) ∨ 2 ≤ SFields.count f.name fs) :
     ∀ arrs, toMarrow ext fields rows ≠ .ok arrs := by
@@ -179,15 +180,17 @@ returns arrays that decode exactly like the arrays of the corresponding build of
 theorem C11_histories_presentations (ext : Ext) (fields : List Field) (r0 : B) (h0 : newRoot fields = .ok r0)
     (hschema : ∀ f ∈ fields, Lemmas.C03.SchemaOKF f)
     (hcov : fields.all Build.coveredF = true) (hsafe : Safe r0)
-    (ops ops' : List C10.Op) (hraw : C10.OpsOK (fun x => noRaw x = true) ops)
-    (hraw' : C10.OpsOK (fun x => noRaw x = true) ops')
+    (ops ops' : List C10.Op) (hraw : C10.OpsOK (fun x => structStreamsAlternate x = true) ops)
+    (hnar : C10.OpsOK (fun x => noRaw x = true) ops ∨ narrowRoot fields = true)
+    (hraw' : C10.OpsOK (fun x => structStreamsAlternate x = true) ops')
+    (hnar' : C10.OpsOK (fun x => noRaw x = true) ops' ∨ narrowRoot fields = true)
     (hsame : (C10.batchesFrom [] ops).map (·.map (interpRow ext fields)) =
       (C10.batchesFrom [] ops').map (·.map (interpRow ext fields)))
     (outs outs' : List (B × List Arr)) (fin fin' : B)
     (h : C10.run ext r0 ops = .ok (outs, fin)) (h' : C10.run ext r0 ops' = .ok (outs', fin')) :
     outs.map (·.2.map decodeAll) = outs'.map (·.2.map decodeAll) := by
-  obtain ⟨l1, b1, d1⟩ := C10.C10_histories ext fields r0 h0 hschema hcov hsafe ops hraw outs fin h
-  obtain ⟨l2, b2, d2⟩ := C10.C10_histories ext fields r0 h0 hschema hcov hsafe ops' hraw' outs' fin' h'
+  obtain ⟨l1, b1, d1⟩ := C10.C10_histories ext fields r0 h0 hschema hcov hsafe ops hraw hnar outs fin h
+  obtain ⟨l2, b2, d2⟩ := C10.C10_histories ext fields r0 h0 hschema hcov hsafe ops' hraw' hnar' outs' fin' h'
   have hb : (C10.batchesFrom [] ops).length = (C10.batchesFrom [] ops').length := by
     simpa using congrArg List.length hsame
   apply List.ext_getElem (by simp only [List.length_map]; omega)
@@ -218,16 +221,11 @@ theorem items_arrays (ext : Ext) (fields : List Field) (al : Nat) (vs rows : Lis
     (hschema : ∀ f ∈ fields, Lemmas.C03.SchemaOKF f)
     (hcov : fields.all Build.coveredF = true)
     (hsafe : ∀ root0, newRoot fields = .ok root0 → Safe root0)
-    (hraw1 : ∀ v ∈ vs, noRaw v = true) (hraw2 : ∀ x ∈ rows, noRaw x = true)
+    (hraw1 : RawRows fields (vs.map (serItem al))) (hraw2 : RawRows fields rows)
     (hsame : (vs.map (serItem al)).map (interpRow ext fields) = rows.map (interpRow ext fields))
     (h1 : toMarrow ext fields (vs.map (serItem al)) = .ok arrs1) (h2 : toMarrow ext fields rows = .ok arrs2) :
     arrs1.map decodeAll = arrs2.map decodeAll :=
-  C11_presentations ext fields _ rows arrs1 arrs2 hschema hcov hsafe
-    (by
-      intro x hx
-      obtain ⟨v, hv, rfl⟩ := List.mem_map.1 hx
-      rw [noRaw_serItem]; exact hraw1 v hv)
-    hraw2 hsame h1 h2
+  C11_presentations ext fields _ rows arrs1 arrs2 hschema hcov hsafe hraw1 hraw2 hsame h1 h2
 
 /-- instances of `hsame`: the records `nm { item: v }` of any struct type, and the maps `{"item": v}` -/
 theorem items_same_as_records (ext : Ext) (fields : List Field) (al al' : Nat) (nm : String) (vs : List SVal) :
@@ -276,15 +274,15 @@ theorem exSafe : ∀ root0, newRoot exFields = .ok root0 → Safe root0 := by
 /-- `C11_presentations` applies with every hypothesis discharged -/
 example : ∀ arrs1 arrs2, toMarrow {} exFields exRows1 = .ok arrs1 → toMarrow {} exFields exRows2 = .ok arrs2 →
     arrs1.map decodeAll = arrs2.map decodeAll := fun arrs1 arrs2 h1 h2 =>
-  C11_presentations {} exFields exRows1 exRows2 arrs1 arrs2 exSchema (by decide) exSafe (by decide) (by decide)
-    exSame h1 h2
+  C11_presentations {} exFields exRows1 exRows2 arrs1 arrs2 exSchema (by decide) exSafe (RawRows.of_noRaw (by decide))
+    (RawRows.of_noRaw (by decide)) exSame h1 h2
 
 /-- `C11_neighbours_undisturbed`: the second record of the struct batch alone, as a tuple: slot 1 there = slot 0 here -/
 example : ∀ arrs1 arrs2, toMarrow {} exFields exRows1 = .ok arrs1 →
     toMarrow {} exFields [.tuple (.cons (.int .i64 2) (.cons .none .nil))] = .ok arrs2 →
     (arrs1.map decodeAll).map (·[1]?) = (arrs2.map decodeAll).map (·[0]?) := fun arrs1 arrs2 h1 h2 =>
-  C11_neighbours_undisturbed {} exFields exRows1 _ arrs1 arrs2 exSchema (by decide) exSafe (by decide) (by decide)
-    h1 h2 1 0 (by decide) (by decide) (by decide +kernel)
+  C11_neighbours_undisturbed {} exFields exRows1 _ arrs1 arrs2 exSchema (by decide) exSafe (RawRows.of_noRaw (by decide))
+    (RawRows.of_noRaw (by decide)) h1 h2 1 0 (by decide) (by decide) (by decide +kernel)
 
 /-- absent required field `a` / field `b` given twice: no documented value, refused -/
 example : (∃ e, interpRow {} exFields (.record "R" (.cons "b" 1 (.str "x") .nil)) = .error e) ∧
